@@ -91,7 +91,7 @@ func c14Getters(c *hx.Ctx, r *hx.RNG) {
 		v = r.Finite(r.Range(1, 300), le)
 		cls = "getter/moderate-exponent"
 	}
-	x := hx.MkR(r, v, digitsOf(v)+uint(r.Intn(3)*r.Intn(25)), r.Mode())
+	x := hx.MkR(r, v, xPrec(r, v, uint(r.Intn(3)*r.Intn(25))), r.Mode())
 	what := "conversions of " + v.Full() + fmt.Sprintf(" (prec %d)", x.Prec())
 	c.Note(what)
 	if c.Verbose {
@@ -255,6 +255,9 @@ func c14Setters(c *hx.Ctx, r *hx.RNG) {
 		n := r.Len(l)
 		if r.Chance(2) {
 			n = r.Range(2000, 20000)
+			if r.Chance(15) { // tens of thousands of digits: size estimates computed in 32 bits
+				n = r.Range(20000, 160000)
+			}
 		}
 		switch r.Intn(6) {
 		case 0:
